@@ -66,4 +66,4 @@ Example C02_float_example :
   num_field_ok 16 false (PF (float_of_bits 4547007122018943789)) /\
   exists v, number_of_raw 49 16 false (PF (float_of_bits 4547007122018943789)) (PI 0) (PI 7) = Ok v /\
             encode_number v 16 false (PF (float_of_bits 4547007122018943789)) = Ok 49.
-Proof. split; [split; vm_compute; [reflexivity | discriminate] | eexists; split; vm_compute; reflexivity]. Qed.
+Proof. split; [split; vm_compute; [reflexivity | discriminate] | eexists; split; [vm_compute; reflexivity | vm_compute; reflexivity]]. Qed.
